@@ -1806,6 +1806,15 @@ func readNextCommand(packet []byte, argsIn [][]byte, msg *Message, wr io.Writer)
 			return readNextHTTPCommand(packet, argsIn, msg, wr)
 		}
 	}
+	// A length header near the integer limit (`$9223372036854775807`) makes
+	// the frame arithmetic of the reader overflow and index out of range.
+	// Turn that into a protocol error for this connection.
+	defer func() {
+		if r := recover(); r != nil {
+			complete, args, leftover = false, argsIn[:0], packet
+			err = errors.New("Protocol error: invalid length")
+		}
+	}()
 	return redcon.ReadNextCommand(packet, args)
 }
 
